@@ -72,8 +72,17 @@ impl World {
             self.stats.borrow_mut().bump("collect_requested_from_callback");
         }
         self.ev(17, starts as u64, 0);
+        // a request that must be a no-op (a collection is already running) must not touch the policy state either
+        let before = if !starts && self.in_collection() { Some((compat::cfg_read().map(|c| c.3), rust_cc::state::allocated_bytes().ok(), rust_cc::state::buffered_objects_count().ok())) } else { None };
         self.lib(LibCall::Collect, collect_cycles);
         self.sync();
+        if let Some(b) = before {
+            let after = (compat::cfg_read().map(|c| c.3), rust_cc::state::allocated_bytes().ok(), rust_cc::state::buffered_objects_count().ok());
+            if after != b {
+                self.fail("O-NONEST.side-effect", format!("collect_cycles() requested from a callback of a running collection is not a no-op: (byte threshold, allocated bytes, buffered objects) went from {:?} to {:?}", b, after));
+                return;
+            }
+        }
         self.check_exec(if starts { "O-EXEC.collect" } else { "O-NONEST.exec" }, "collect_cycles()");
         if starts {
             self.after_collection_returned(0);
